@@ -1,10 +1,14 @@
 package main
 
 import (
+	"context"
 	"encoding/json"
 	"flag"
 	"fmt"
+	"go/types"
+	"math/big"
 	"os"
+	"os/exec"
 	"path/filepath"
 	"strings"
 	"sync"
@@ -12,11 +16,124 @@ import (
 )
 
 // tryGoReplay builds an in-package Go test from a solver model and runs it on the real code.
+// Supported: package-level functions (lemma harnesses and plain functions) whose parameters
+// are all scalars, for obligation kinds that the real code decides by itself when executed
+// (verifspec.Assert in a harness, run-time panics). The test calls the real function with the
+// model's inputs; a panic other than an unsatisfied Assume confirms the violation.
 func tryGoReplay(prop string, o *Obl, inputs map[string]string, dir, name string) (file string, confirmed bool, note string) {
-	return "", false, ""
+	e := o.Enc
+	fn := e.topFn
+	if fn == nil || fn.Signature.Recv() != nil || fn.Parent() != nil || fn.Pkg == nil {
+		return "", false, ""
+	}
+	switch o.Kind {
+	case "lemma", "bounds", "div", "unreachable-panic", "nil":
+	default:
+		return "", false, ""
+	}
+	var args []string
+	needMath := false
+	for _, p := range fn.Params {
+		b, ok := p.Type().Underlying().(*types.Basic)
+		if !ok {
+			return "", false, ""
+		}
+		mv, ok := inputs[p.Name()]
+		if !ok {
+			return "", false, ""
+		}
+		lit, ok := goLiteral(mv, b)
+		if !ok {
+			return "", false, ""
+		}
+		if strings.HasPrefix(lit, "math.") {
+			needMath = true
+		}
+		args = append(args, fmt.Sprintf("%s(%s)", types.TypeString(p.Type(), types.RelativeTo(fn.Pkg.Pkg)), lit))
+	}
+	var src strings.Builder
+	src.WriteString("//go:build verif\n\npackage " + fn.Pkg.Pkg.Name() + "\n\nimport (\n\t\"testing\"\n")
+	if needMath {
+		src.WriteString("\t\"math\"\n")
+	}
+	src.WriteString("\n\t\"github.com/prometheus/prometheus/internal/verifspec\"\n)\n\n")
+	src.WriteString("// Replay of obligation " + o.Name + "\n// clause: " + strings.ReplaceAll(o.Src, "\n", " ") + "\n")
+	src.WriteString("func TestVerifReplay(t *testing.T) {\n\tdefer func() {\n\t\tif r := recover(); r != nil {\n\t\t\tif _, ok := r.(verifspec.Unsatisfied); ok {\n\t\t\t\tt.Skip(\"model input does not satisfy an Assume\")\n\t\t\t}\n\t\t\tt.Fatalf(\"VIOLATION-CONFIRMED: %v\", r)\n\t\t}\n\t}()\n")
+	src.WriteString("\t" + fn.Name() + "(" + strings.Join(args, ", ") + ")\n}\n")
+	gofile := filepath.Join(dir, name+"_test.go")
+	os.WriteFile(gofile, []byte(src.String()), 0o644)
+	pkgDir := filepath.Dir(e.prog.fset.Position(fn.Pos()).Filename)
+	meta := map[string]string{"pkg_dir": pkgDir, "test_file": gofile}
+	mb, _ := json.Marshal(meta)
+	os.WriteFile(gofile+".meta.json", mb, 0o644)
+	ok, out := runGoReplay(gofile)
+	return gofile, ok, out
 }
 
-func runGoReplay(file string) (bool, string) { return false, "" }
+// goLiteral converts an SMT model value to a Go literal of basic type b.
+func goLiteral(mv string, b *types.Basic) (string, bool) {
+	mv = strings.TrimSpace(mv)
+	switch {
+	case b.Info()&types.IsBoolean != 0:
+		return mv, mv == "true" || mv == "false"
+	case strings.HasPrefix(mv, "#x") || strings.HasPrefix(mv, "#b"):
+		base := 16
+		if mv[1] == 'b' {
+			base = 2
+		}
+		v, ok := new(big.Int).SetString(mv[2:], base)
+		if !ok {
+			return "", false
+		}
+		w := 64
+		if base == 16 {
+			w = 4 * len(mv[2:])
+		} else {
+			w = len(mv[2:])
+		}
+		if b.Info()&types.IsFloat != 0 {
+			if w == 32 {
+				return fmt.Sprintf("math.Float32frombits(0x%x)", v), true
+			}
+			return fmt.Sprintf("math.Float64frombits(0x%x)", v), true
+		}
+		if b.Info()&types.IsUnsigned == 0 && v.Bit(w-1) == 1 {
+			v.Sub(v, new(big.Int).Lsh(big.NewInt(1), uint(w)))
+		}
+		return v.String(), true
+	case b.Info()&types.IsInteger != 0:
+		s := strings.ReplaceAll(strings.ReplaceAll(strings.ReplaceAll(mv, "(", ""), ")", ""), " ", "")
+		if _, ok := new(big.Int).SetString(s, 10); ok {
+			return s, true
+		}
+	}
+	return "", false
+}
+
+func runGoReplay(gofile string) (bool, string) {
+	mb, err := os.ReadFile(gofile + ".meta.json")
+	if err != nil {
+		return false, "no meta file"
+	}
+	var meta map[string]string
+	json.Unmarshal(mb, &meta)
+	pkgDir := meta["pkg_dir"]
+	ov := map[string]map[string]string{"Replace": {filepath.Join(pkgDir, "zz_verif_replay_test.go"): gofile}}
+	ob, _ := json.Marshal(ov)
+	ovFile := gofile + ".overlay.json"
+	os.WriteFile(ovFile, ob, 0o644)
+	ctx, cancel := context.WithTimeout(context.Background(), 15*time.Minute)
+	defer cancel()
+	cmd := exec.CommandContext(ctx, "go", "test", "-tags", "verif", "-overlay", ovFile, "-vet=off", "-count=1", "-timeout", "120s", "-run", "^TestVerifReplay$", ".")
+	cmd.Dir = pkgDir
+	cmd.Env = append(os.Environ(), "GOPROXY=off", "GOFLAGS=", "GOTOOLCHAIN=auto")
+	out, _ := cmd.CombinedOutput()
+	s := string(out)
+	if len(s) > 3000 {
+		s = s[:3000]
+	}
+	return strings.Contains(s, "VIOLATION-CONFIRMED"), s
+}
 
 // ---- must-fail corpus ----
 
